@@ -18,7 +18,7 @@ func VerifC04_v4_first() {
 	lim := newWireInt("lim", true)
 	body := &server.FirstRequestBody{}
 	if nondetBool("tags-set") {
-		body.Tags = []string{nondetStringUpTo("tag", 1)}
+		body.Tags = []string{nondetStringUpTo("tag", deep(1))}
 	}
 	if nondetBool("ids-set") {
 		body.Ids = []int{nondetInt("id")}
@@ -30,7 +30,7 @@ func VerifC04_v4_first() {
 	namesPresent := nondetBool("names-present")
 	var names []string
 	if namesPresent {
-		names = []string{nondetStringUpTo("name", 1)}
+		names = []string{nondetStringUpTo("name", deep(1))}
 		query["names"] = names
 	}
 	called := 0
@@ -61,10 +61,10 @@ func VerifC04_v4_first() {
 func VerifC04_v4_second() {
 	body := &server.SecondRequestBody{}
 	if nondetBool("tags-set") {
-		body.Tags = []string{nondetStringUpTo("tag", 1)}
+		body.Tags = []string{nondetStringUpTo("tag", deep(1))}
 	}
 	if nondetBool("ids-set") {
-		body.Ids = []string{nondetStringUpTo("id", 1)}
+		body.Ids = []string{nondetStringUpTo("id", deep(1))}
 	}
 	called := 0
 	endpoint := func(ctx context.Context, p any) (any, error) { called++; return nil, nil }
